@@ -85,12 +85,14 @@ def _systems(draw):
         return {"q": mat(k, k), "ev": ev}
 
     f = {"u": mat(n, n), "v": mat(n, n), "s": [draw(st.floats(0.3, 3.0)) for _ in range(n)]}
-    alpha = draw(st.one_of(st.sampled_from([1.0, 0.5, 0.1, 1e-3]), st.floats(0.01, 1.0)))
+    alpha = draw(st.one_of(st.sampled_from([1.0, 0.5, 0.1, 1e-3, 1e-3, 1e-4]), st.floats(0.01, 1.0)))
     beta = draw(st.one_of(st.sampled_from([0.0, 2.0]), st.floats(0, 4)))
-    kappa_kind = draw(st.sampled_from(["default", "zero", "3-n", "free"]))
+    kappa_kind = draw(st.sampled_from(["default", "zero", "3-n", "free", "near_minus_n"]))
     kappa = {"default": None, "zero": 0.0, "3-n": 3.0 - n}.get(kappa_kind, None)
     if kappa_kind == "free":
         kappa = draw(st.floats(-n + 0.5, 5.0))
+    if kappa_kind == "near_minus_n":
+        kappa = -n + draw(st.sampled_from([0.5, 0.1, 1.0]))  # alpha^2 (n + kappa) becomes tiny: the weights' common divisor
     if kappa == 0.0 and n + 0.0 <= 0:
         kappa = None
     nsteps = draw(st.integers(1, 5))
